@@ -62,7 +62,7 @@ def run(db, res, rule, pairs):
                       'the two directions no longer do the same thing: only in %s: %s; only in %s: %s - they were mirror images, so one of them is wrong' % (a, only_a[:3], b, only_b[:3]), fa.loc)
         else:
             ra, rb, why = reviewed
-            ok = frozenset(only_a) == frozenset(ra) and frozenset(only_b) == frozenset(rb)
-            res.check(ok, rule, key, 'differ exactly by the reviewed difference: ' + why,
+            ok = frozenset(only_a) <= frozenset(ra) and frozenset(only_b) <= frozenset(rb)      # a reviewed difference that has disappeared makes the twins exact mirrors
+            res.check(ok, rule, key, 'differ at most by the reviewed difference: ' + why,
                       'the two directions differ by more than their reviewed difference (%s): now only in %s: %s; only in %s: %s' % (why, a, sorted(set(only_a) - set(ra))[:3] or sorted(set(ra) - set(only_a))[:3], b, sorted(set(only_b) - set(rb))[:3] or sorted(set(rb) - set(only_b))[:3]), fa.loc)
     res.floor(rule, 'mirror pairs compared', n, 1)
